@@ -611,7 +611,8 @@ def run_shard(spec, seed: int, tier: str):
     elif spec["part"] == "machine":
         drive(stats, lambda s: machine_test(make_machine(gen, stats), s, spec["n"], spec["steps"]), seed)
     else:
-        drive(stats, lambda s: given_test(_wrap_ops(gen), lambda ops: stats.guard(run_ops, gen, ops, stats), s, spec["n"]), seed)
+        # long runs: not shrunk (every replay of a 500-send history costs seconds; the unshrunk history is the replay file)
+        drive(stats, lambda s: given_test(_wrap_ops(gen), lambda ops: stats.guard(run_ops, gen, ops, stats), s, spec["n"], shrink=False), seed)
     return stats.result()
 
 
